@@ -70,6 +70,21 @@ Proof.
   rewrite set_after_get by exact Hs. reflexivity.
 Qed.
 
+(* the length attribute may be left out (schema default 1) or stated: the reader stores the same signal *)
+Lemma kcd_length_default_equivalent s b : kcd_read_pos [s; -1; b] = kcd_read_pos [s; 1; b].
+Proof. reflexivity. Qed.
+
+(* a KCD writer that always states the length round-trips as well *)
+Definition kcd_write_pos_explicit (p : pos) : list Z := [p_start p; p_size p; bz' (negb (p_le p))].
+Lemma kcd_explicit_position_roundtrip p : pos_ok p -> kcd_read_pos (kcd_write_pos_explicit p) = Some p.
+Proof.
+  open_pos p. intros [Hs Hw]. unfold kcd_read_pos, kcd_write_pos_explicit; cbn [fnth nth p_le p_size p_start].
+  rewrite bz'_neg_eqb0.
+  replace (if size <? 0 then 1 else size) with size by (destruct (size <? 0) eqn:L; lia).
+  change start with (get_startbit le size start None false) at 1.
+  rewrite set_after_get by exact Hs. reflexivity.
+Qed.
+
 Lemma kcd_mux_position_roundtrip p :
   pos_ok p -> p_le p = true -> kcd_read_mux_pos (kcd_write_mux_pos p) = Some p.
 Proof. open_pos p. intros _ ->. reflexivity. Qed.
